@@ -61,15 +61,26 @@ def stack_class(r):
 
 
 def e2e_nontrivial(tok, res):
-    return tok[0] in ("xfer", "multi", "bw", "sbw", "slow", "life", "sched") and not res.startswith("err")
+    return tok[0] in ("xfer", "multi", "bw", "sbw", "slow", "life", "sched", "reload", "ppc") and not res.startswith("err")
 
 
 def e2e_class(r):
     if r.startswith("total="):
         return "bw samples=" + str(len(r.split(";s=")[1].split(",")))
+    if r.startswith("s=") and ("t." in r or "u." in r):
+        steps = r[2:].split("/")
+        ans = [a for s_ in steps for a in s_.split(",")]
+        return "reload steps=%d answered=%d hdr=%d plugin=%d" % (len(steps), min(9, sum(1 for a in ans if a not in ("-", "?"))),
+                                                               min(9, sum(1 for a in ans if a.endswith(".1"))), min(9, sum(1 for a in ans if "u." in a)))
     if r.startswith("s="):
         steps = r[2:].split("/")
         return "life steps=%d refused=%d" % (len(steps), min(9, sum(s.split(",").count("-") for s in steps)))
+    if r.startswith("r=") and "|" not in r and ":" not in r:
+        rounds = [rd.split(",") for rd in r[2:].split("/")]
+        f = rounds[0][0].split(".")
+        total = sum(len(rd) for rd in rounds)
+        own = sum(1 for rd in rounds for i, u in enumerate(rd) if u.split(".")[2:3] == [str(i)])
+        return "ppc users=%d via=%s v=%s own=%s" % (len(rounds[0]), f[0][-1:], f[1] if len(f) > 1 else "?", "all" if own == total else str(own))
     if r.startswith("r="):
         els = r[2:].split("|")
         return "sbw transfers=%d complete=%d" % (len(els), sum(1 for e in els if e.split(":")[1:3] == ["1", "1"]))
@@ -97,7 +108,9 @@ _T = ["mirror_proxy", "mirror_order", "mirror_visitor", "limiter_position", "sta
       "dl_clear_both", "dl_read_only_clear_leaves_write", "handle_clears_deadlines", "handle_closes_or_clears",
       "handle_code_clears", "dlHoldsOn_sound", "quic_noCancel_delivers", "quic_close_delivers", "quic_cancelWrite_loses",
       "quic_close_code", "pool_no_sharing", "pool_live_not_pooled", "pool_double_put_witness", "pool_recycle_once_code",
-      "survivor_keeps_route", "survivor_example"]
+      "survivor_keeps_route", "survivor_example",
+      "reload_table", "reload_inv", "reload_bridges_last", "reload_swap", "reload_inplace_witness", "reload_code_recreates",
+      "startmsg_own", "startmsg_header_own", "startmsg_shared_witness", "startmsg_code_locals"]
 
 PROP = {
         "level": "proof",
@@ -158,7 +171,16 @@ PROP = {
                 "(host, HTTP user) — 25 probes — notes whose backend answers, compared with C06's Router model and every ACTIVE "
                 "proxy's own endpoint must reach its own backend; connection SCHEDULES: 3..5 back-to-back groups of 1..4 "
                 "simultaneous connections, mostly on compressed proxies (pooled codecs), each with its own random stream checked "
-                "byte for byte both ways and its tag. non-trivial = a write that was split / a grant that waited / any half-tunnel, close, "
+                "byte for byte both ways and its tag; RELOAD HISTORIES on a dedicated pair (3 transport configurations): 3 tcp + 1 tcpmux proxy over 5 "
+                "backends that answer WHO they are and what header they got (each on a TCP port and a unix socket), 1..8 configurations "
+                "loaded one after the other into the running frpc through client.Service.UpdateAllConfigurer — change classes: only "
+                "localIP/localPort, only proxyProtocolVersion, dialled <-> unix_domain_socket plugin, two proxies swapping their "
+                "backends, a field frps sees (remotePort / customDomain / encryption+compression), local and remote together, nothing, a "
+                "proxy going / coming back, a name configured twice — and after every one a NEW user per proxy: answered by the backend "
+                "(and with the header version, naming that user) of the configuration loaded LAST, replayed on the UpdateAll model from "
+                "the table the earlier ops left; SIMULTANEOUS USERS of one proxy with proxyProtocolVersion v1 / v2 (dialled backend or the "
+                "plugin): 1..3 rounds of 2..24 users from 1..4 distinct source addresses dialling at the same instant, all connections "
+                "held open: every header names the very user of its connection (and the endpoint dialled). non-trivial = a write that was split / a grant that waited / any half-tunnel, close, "
                 "dispatch, sniff or end-to-end transfer that ran; distinct = distinct (op line, result) pairs",
         "trusted": COMMON_TRUST + [
             "models Frp/Model/Deadline.lean, QuicStream.lean, CodecPool1.lean, the charging order of Limit.readW written by hand from pkg/util/vhost/vhost.go "
@@ -167,6 +189,14 @@ PROP = {
             "of wrapQuicStream.Close incl. those in closures, whether a WaitN dominates every return of limit.Reader.Read, the most invocations of a codec's recycle function on any path "
             "of every caller) through handle_code_clears / quic_close_code / reader_code_charges / pool_recycle_once_code, and by the dl / qclose / rsrc / "
             "sched ops; the life op replays C06's Router model (Frp/Model/Router.lean)",
+            "model Frp/Model/Reload.lean (client proxy.Manager.UpdateAll over Wrapper{Cfg, the running proxy's configuration}; the fill / send "
+            "moments of server GetWorkConnFromPool per user connection) written by hand from client/proxy/proxy_manager.go, proxy_wrapper.go, "
+            "proxy.go, server/proxy/proxy.go; tied by Frp/Gen/ConnFacts.lean (go/ast: the conditions on the way to every `del = true` of "
+            "UpdateAll's first loop, everything that loop does with a running wrapper, the calls under `if del` and of the second loop, "
+            "every assignment in client/proxy to a path through Cfg / pxy / baseCfg / cfg; the argument of msg.WriteMsg in "
+            "GetWorkConnFromPool, whether its address fields come from locals, every write through the receiver in it and the "
+            "BaseProxy methods it calls) through reload_code_recreates / startmsg_code_locals, and by the reload / ppc ops; a "
+            "configuration changed through an alias the syntactic facts do not see is only caught by the ops",
             "models Frp/Model/Layers.lean, Limit.lean, CloseGraph.lean, Tunnel.lean written by hand from "
             "server/proxy/proxy.go, client/proxy/proxy.go, proxy_manager.go, pkg/util/limit, pkg/util/net/conn.go, golib io / "
             "net.SharedConn, vhost/https.go, tcpmux/httpconnect.go; tied by the stack and e2e engines",
@@ -241,7 +271,12 @@ META = {
                 "speed, one that does loses the tail (the real wrapper's calls are regenerated); if every handler recycles its "
                 "pooled codec at most once (regenerated path count) no two live connections ever hold the same codec, for all "
                 "histories and all pool choices; removing routes of other buckets never changes the route of a host/user that "
-                "has its own.",
+                "has its own; after any history of reloads of a running frpc (Manager.UpdateAll: a proxy whose configuration is not "
+                "equal to the new one is stopped and made again — comparison and writers regenerated from client/proxy) a new "
+                "connection of a proxy is bridged to the backend, with the header version, of the configuration loaded last; the "
+                "StartWorkConn message written for a user connection carries that connection's own addresses in every interleaving "
+                "with other users of the proxy (the message is a literal from locals: regenerated from server/proxy/proxy.go), so "
+                "its proxy-protocol header names that very user.",
         "note": "Trusted: Lean kernel; hand-written models; harness. Assumed: golib crypto/snappy lawful, x/time/rate, yamux/TLS/TCP. "
                 "Known findings reproduced on every run: C01-server-limiter-close, C01-closenotify-self-close, "
                 "C01-tcpmux-early-data. Not covered: kcp, xtcp fallback, vhost port shared with the control port (quic / websocket: one e2e pair each); "
